@@ -420,7 +420,7 @@ func C09(r *ev.Run) {
 	var pairs []crashPair
 	for _, lss := range []int{512, 4096} {
 		minSectors := int64(2 + 2*(128*128/lss) + 1 + 8)
-		for _, dsz := range []int64{minSectors * int64(lss), 10 << 20} {
+		for _, dsz := range []int64{minSectors * int64(lss), 10 << 20, 1000000 + int64(lss)*40} { // the last one is not a whole number of sectors
 			for _, pm := range []bool{true, false} {
 				for oi, o := range shapes {
 					for ni, n := range shapes {
